@@ -434,4 +434,31 @@ example :
     addressesByIndex ({ ip := { val := 0xffffc0000201 } } :: dump) false = .panic := by
   decide
 
+/-! ### the default route (finding F-18) -/
+
+/-- With the default route given its destination (`normRoute true`: what a repaired source does,
+    `Gen.Plugin.routeDefaultWithoutDst`), the model meets the documented oracle on every dump. -/
+theorem holds_model_routes_doc (msgs : List RouteMsg) (failed : Bool) :
+    Spec.C13Addresser.holdsRoutesDoc msgs failed (routesByIndex (msgs.map (normRoute true)) failed) = true := by
+  unfold Spec.C13Addresser.holdsRoutesDoc
+  exact holds_model_routes _ failed
+
+/-- The kernel's default route — no destination attribute, destination length 0 — on the
+    loopback interface: the documented answer is the route `::/0`; the pinned source (no special
+    treatment) panics on it, which the oracle rejects and classifies as F-18. -/
+theorem default_route_witness :
+    let d : RouteMsg := { dst := IP.zero, dlen := 0, oif := 1, dstAbsent := true }
+    routesByIndex ([d].map (normRoute true)) false =
+      .ok [{ pfx := { addr := v6Unspecified, bits := 0 }, index := 1, preference := prefMedium }] ∧
+    routesByIndex ([d].map (normRoute false)) false = .panic ∧
+    Spec.C13Addresser.holdsRoutesDoc [d] false .panic = false ∧
+    Spec.C13Addresser.defaultRouteClass [d] false .panic = true := by
+  decide
+
+/-- A missing destination attribute with a non-zero length stays a broken invariant. -/
+example :
+    let m : RouteMsg := { dst := IP.zero, dlen := 64, oif := 1, dstAbsent := true }
+    routesByIndex ([m].map (normRoute true)) false = .panic := by decide
+
+
 end Corerad.Props.C13Addresser
